@@ -4,8 +4,8 @@ from __future__ import annotations
 import ast
 
 from ..cfg import CFG
-from ..core import (AnalysisError, DefRef, NotConst, Ref, call_name, calls_in, dotted, enclosing_conditions, func_params, get_kw, norm,
-                    qualname_of, walk_no_nested)
+from ..core import (AnalysisError, DefRef, NotConst, Ref, call_name, calls_in, dotted, enclosing_conditions, expand_aliases, func_params, get_kw,
+                    norm, qualname_of, single_assign_aliases, walk_no_nested)
 
 PROPERTY = "C17"
 EXPLANATION = (
@@ -202,14 +202,19 @@ def run(ctx):
     sw = ctx.anchor_func("flow.record.adapter.split.SplitWriter.write")
     scfg = CFG(sw)
     wcall = next((c for c in calls_in(sw) if norm(c.func) == "self.writer.write"), None)
-    limit_if = next((st for st in walk_no_nested(sw) if isinstance(st, ast.If) and isinstance(st.test, ast.Compare) and "self.count" in norm(st.test)), None)
+    sw_alias = single_assign_aliases(sw)
+    limit_if = next((st for st in walk_no_nested(sw) if isinstance(st, ast.If) and isinstance(expand_aliases(st.test, sw_alias), ast.Compare)
+                     and "self.count" in norm(expand_aliases(st.test, sw_alias))), None)
     if wcall is None or limit_if is None:
         raise AnalysisError("R17.4: SplitWriter.write structure not recognised")
+    limit_test = expand_aliases(limit_if.test, sw_alias)
     ctx.check(scfg.dominates(scfg.node_of(wcall).id, scfg.node_of(limit_if).id), "R17.4", "SplitWriter.write:write-before-test", "the limit is tested before the record is written", sw,
               "record written first")
-    op = limit_if.test.ops[0]
-    ctx.check(isinstance(op, ast.GtE) and norm(limit_if.test.left) == "self.written" and norm(limit_if.test.comparators[0]) == "self.count", "R17.4", "SplitWriter.write:limit-test",
-              f"limit test is `{norm(limit_if.test)}`: a part can exceed the limit", limit_if, "self.written >= self.count", key="R17.4:SplitWriter.write:limit-test")
+    op = limit_test.ops[0]
+    ge = isinstance(op, ast.GtE) and norm(limit_test.left) == "self.written" and norm(limit_test.comparators[0]) == "self.count"
+    le = isinstance(op, ast.LtE) and norm(limit_test.left) == "self.count" and norm(limit_test.comparators[0]) == "self.written"
+    ctx.check(ge or le, "R17.4", "SplitWriter.write:limit-test",
+              f"limit test is `{norm(limit_test)}`: a part can exceed the limit", limit_if, "self.written >= self.count", key="R17.4:SplitWriter.write:limit-test")
     seq = []
     for st in limit_if.body:
         if isinstance(st, ast.Expr) and isinstance(st.value, ast.Call):
